@@ -58,6 +58,7 @@ def run(P, R, tier):
         "(f) follow-up results on the restored state equal those on the original (derived quantities recomputed on read)",
     ]
     K = KN.get(P)
+    crossreset_rule(P, R)
     # ------------------------------------------------------------------ C10.findopt
     R.rule("C10.findopt", "CParser::find_option: lower-cased token, exact match first, then first entry that begins with it", minimum=1)
     shape, desc = rawio.find_option_shape(P)
@@ -643,3 +644,55 @@ def bulk_rules(P, R, K):
             inst = "%s/%d" % (q, len(f["params"]))
             if not bad:
                 R.ok("C10.bulk", inst, "kinds handled: %s" % ",".join(sorted(seen)))
+
+
+def crossreset_rule(P, R):
+    """dump_raw writes every option of an entity, one per line, in a fixed order; read_raw handles them one by one.  The handler
+    of option X may therefore not unconditionally overwrite a member that has its own option Y: whichever of the two lines
+    comes later in the dump would wipe what the earlier one restored (e.g. `-precipitate_only 0` clearing a restored
+    dissolve_only).  A cross-write must depend on the value just parsed, or - when it sets a flag - dump_raw must emit option
+    X only under that flag."""
+    R.rule("C10.crossreset", "a read_raw option handler does not unconditionally overwrite a member that has its own option", minimum=150)
+    n = 0
+    for key, f in sorted(P.functions.items()):
+        if f["name"] != "read_raw":
+            continue
+        rm = rawio.reader_model(P, f)
+        if not rm:
+            continue
+        cases = rm["cases"]
+        prim = {}
+        for lb, c in cases.items():
+            for e in c["stores"]:
+                prim.setdefault(e, set()).add(lb)
+        dump = P.fns_named(f.get("cls", "") + "::dump_raw")
+        guarded = set()
+        for d in dump:
+            for x in T.walk(d["body"]):
+                if x[0] == "If":
+                    for y in T.walk(x[2]):
+                        if y[0] == "Member":
+                            guarded.add(y[2].split("::")[-1])
+        seen = set()
+        for lb, c in cases.items():
+            if id(c["stmts"]) in seen:
+                continue
+            seen.add(id(c["stmts"]))
+            n += 1
+            mine = set(c["stores"])
+            bad = []
+            for st in c["stmts"]:
+                if T.is_node(st) and st[0] == "Bin" and st[2] == "=":
+                    t = T.strip_casts(st[3])
+                    if t[0] == "Member" and T.is_node(t[3]) and T.strip_casts(t[3])[0] == "This" and T.strip_casts(st[4])[0] == "Lit":
+                        e = rawio.target_elem(t)
+                        if e not in mine and e in prim and e[0].split("::")[-1] not in guarded:
+                            bad.append((st[1], e[0].split("::")[-1]))
+            inst = "%s:case %s" % (f.get("cls", "?"), "/".join(str(l) for l in c["labels"]))
+            if bad:
+                R.violation("C10.crossreset", inst, "the handler unconditionally overwrites `%s` (line %d), which has its own option and is written by dump_raw on a line of its own: reading a "
+                            "dump back, the later of the two lines wipes what the earlier one restored" % (bad[0][1], bad[0][0]), file=f["file"], line=bad[0][0], function=f["q"])
+            else:
+                R.ok("C10.crossreset", inst, "no unconditional cross-write")
+    if n < 150:
+        R.anchor_missing("C10.crossreset", "only %d read_raw option handlers examined" % n)
